@@ -109,7 +109,7 @@ class ResourceTransformer:
         preloaded: A uri/content map used as cache
     """
 
-    __slots__ = ("classes", "config", "preloaded", "processed")
+    __slots__ = ("classes", "config", "preloaded", "processed", "schemas")
 
     def __init__(self, config: GeneratorConfig):
         """Initialize the transformer."""
@@ -117,6 +117,7 @@ class ResourceTransformer:
         self.classes: list[Class] = []
         self.processed: list[str] = []
         self.preloaded: dict = {}
+        self.schemas: list[Schema] = []
 
     def process(self, uris: list[str], cache: bool = False) -> None:
         """Process a list of resolved URI strings.
@@ -298,6 +299,10 @@ class ResourceTransformer:
         Args:
             schema: The xsd schema instance
         """
+        # The restriction paths identify the schema particles by id(), keep
+        # the instances alive or a later schema can reuse the same numbers
+        self.schemas.append(schema)
+
         for sub in schema.included():
             if sub.location:
                 self.process_schema(sub.location, schema.target_namespace)
